@@ -246,6 +246,11 @@ def case(rng, cat=None):
         if j < 0.3:
             wn = cat.tables[-1][1]                     # the name of a base table: the WITH table shadows it in this statement, and only here
         sel = ", ".join(wn + "." + n if rng.random() < 0.5 else n for n, _ in iout)
+        if 0.3 <= j < 0.42:
+            # a derived table whose alias is also the name of a WITH table of the statement: the FROM item is what the name means in this SELECT
+            inner2, iout2, ikeys2 = gen_select(rng, cat, 0)
+            sel2 = ", ".join("w." + n if rng.random() < 0.6 else n for n, _ in iout2)
+            return cat, "WITH w AS (%s) SELECT %s FROM (%s) w" % (inner, sel2, inner2), expected_select(iout2), None
         if j > 0.75:                                    # the WITH clause sits inside a derived table, not at the top
             text = "SELECT %s FROM (WITH %s AS (%s) SELECT %s FROM %s) dd" % (", ".join("dd." + n for n, _ in iout), wn, inner, sel, wn)
         else:
